@@ -27,7 +27,10 @@ MUT_CALLS = ('dict', 'list', 'set', 'defaultdict', 'collections.defaultdict', 'O
 MUTATORS = {'append', 'extend', 'insert', 'pop', 'remove', 'clear', 'sort', 'reverse', 'update', 'setdefault', 'popitem', 'add', 'discard',
             '__setitem__', '__delitem__', 'appendleft'}
 ENV_READS = ('random.', 'os.environ', 'os.getenv', 'time.time', 'time.perf_counter', 'time.monotonic', 'locale.', 'uuid.', 'socket.',
-             'getpass.', 'os.getpid', 'threading.get_ident', 'secrets.')
+             'getpass.', 'os.getpid', 'threading.get_ident', 'secrets.',
+             # the table of loaded modules: what it holds depends on what ran before, and an entry may be a module that another
+             # thread is still executing (the import lock is only taken by the import statement / __import__ / importlib)
+             'sys.modules')
 
 
 def is_mutable_init(v):
@@ -309,8 +312,37 @@ def enclosing_stmt(fn, node):
     return best
 
 
+ONE_SHOT_CALLS = {'iter', 'map', 'filter', 'zip', 'reversed', 'enumerate', 'open'}
+
+
+def check_one_shot(rep, unit):
+    """OWN.one-shot-global: a module-level generator expression or iterator object is consumed by the first calls that
+    read it and is empty afterwards: what a function returns then depends on how often it was called before."""
+    file = unit.rel
+    n = 0
+    for st in unit.tree.body:
+        if not (isinstance(st, ast.Assign) and len(st.targets) == 1 and isinstance(st.targets[0], ast.Name)):
+            continue
+        v = st.value
+        one_shot = isinstance(v, ast.GeneratorExp) or (isinstance(v, ast.Call) and isinstance(v.func, ast.Name) and v.func.id in ONE_SHOT_CALLS)
+        if not one_shot:
+            continue
+        name = st.targets[0].id
+        for qual, fn, _cls in unit.funcs:
+            if name in local_names(fn):
+                continue
+            for r in ast.walk(fn):
+                if isinstance(r, ast.Name) and r.id == name and isinstance(r.ctx, ast.Load):
+                    n += 1
+                    rep.fail('OWN.one-shot-global', file, qual, src(enclosing_stmt(fn, r) or r)[:120], r.lineno,
+                             'module-level %s = %s is an iterator: the first calls consume it, later calls of %s() see it empty (result depends on the call history)'
+                             % (name, src(v)[:60], qual))
+    return n
+
+
 def check_unit(rep, unit, registry_owner=False):
     file = unit.rel
+    check_one_shot(rep, unit)
     written = {}
     for qual, fn, cls in unit.funcs:
         for w in find_writes(unit, fn):
@@ -399,6 +431,14 @@ def check_unit(rep, unit, registry_owner=False):
         for n in ast.walk(fn):
             if isinstance(n, (ast.Attribute, ast.Name)):
                 s = src(n)
+                if s == 'sys.modules' and isinstance(parent_of(fn, n), ast.Subscript):
+                    # accepted idiom: __import__(X) immediately followed by sys.modules[X] (the import statement has completed, X is loaded)
+                    key = src(parent_of(fn, n).slice)
+                    prior = [c for c in ast.walk(fn) if isinstance(c, ast.Call) and isinstance(c.func, ast.Name) and c.func.id == '__import__'
+                             and c.args and src(c.args[0]) == key and c.lineno <= n.lineno]
+                    if prior:
+                        rep.ok('OWN.environment', '%s:%d %s' % (file, n.lineno, qual), 'sys.modules[%s] right after __import__(%s)' % (key, key))
+                        continue
                 if any(s == e.rstrip('.') or s.startswith(e) for e in ENV_READS) and not isinstance(parent_of(fn, n), ast.Attribute):
                     rep.fail('OWN.environment', file, qual, s, n.lineno, 'reads process environment (%s): the result is not a function of the arguments and the date' % s)
 
@@ -437,6 +477,11 @@ def check(tier):
             rep.fail('OWN.registry-no-alias', f.file, f.func, f.construct, f.line, f.detail)
     if not any(f.rule == 'DT.no-alias' for f in sub.findings):
         rep.ok('OWN.registry-no-alias', 'stdnum/numdb.py _find', 'returned property dicts and child lists are fresh containers in all 27 order types')
+    # rules with no instance on a healthy tree must still recognise their construct
+    probe = Report('C13', tier)
+    check_one_shot(probe, Unit('probe.py', 'probe.py', ast.parse('_mods = (m for m in (1, 2))\ndef f(x):\n    for m in _mods:\n        return m\n')))
+    if len(probe.findings) != 1:
+        rep.error('OWN.one-shot-global no longer recognises its positive example')
     rep.expect_at_least('OWN.memo-key', 4, 'memo stores (numdb, iban, eu.vat, vatin, soap)')
     rep.expect_at_least('OWN.mutable-default', 100, 'default arguments')
     rep.not_decided = ['interleavings are not enumerated: the effect discipline makes every call a function of its arguments',
